@@ -5,6 +5,7 @@ package main
 import (
 	"fmt"
 	"go/types"
+	"regexp"
 	"strings"
 )
 
@@ -34,13 +35,20 @@ type Comp struct {
 
 var flatMemo = map[string][]Comp{}
 
+var reByteAlias = regexp.MustCompile(`\bbyte\b`)
+var reRuneAlias = regexp.MustCompile(`\brune\b`)
+
+// typeKey is the canonical name of a type in heap names (byte = uint8, rune = int32).
 func typeKey(t types.Type) string {
-	return sanitize(types.TypeString(t, func(p *types.Package) string {
+	s := types.TypeString(t, func(p *types.Package) string {
 		if p.Path() == "github.com/asticode/go-astisub" {
 			return ""
 		}
 		return p.Name()
-	}))
+	})
+	s = reByteAlias.ReplaceAllString(s, "uint8")
+	s = reRuneAlias.ReplaceAllString(s, "int32")
+	return sanitize(s)
 }
 
 func flatten(t types.Type) []Comp {
